@@ -523,6 +523,11 @@ func runNocopy(c *StructCase, w *TraceWriter, seeds []int) {
 	if c.Schema == "AppEx" {
 		nlarge = 0 // ApplicationException always copies
 	}
+	for _, sp := range c.S {
+		b := sp.Bytes()
+		w.Ev("nclen", "segs", projectBytes(b, seeds), "strnc", thrift.Binary.StringLengthNocopy(string(b)), "binnc", thrift.Binary.BinaryLengthNocopy(b),
+			"str", thrift.Binary.StringLength(string(b)), "bin", thrift.Binary.BinaryLength(b))
+	}
 	blen := v.BLength()
 	copybuf := make([]byte, blen+4)
 	copyret := v.FastWriteNocopy(copybuf, nil)
